@@ -402,6 +402,12 @@ class FnSpec:
         self.tline = 0
         self.bodyprefix = None
 
+def _copy_spec_only(fs):
+    g = FnSpec()
+    g.file, g.name, g.within, g.ret, g.spec, g.tline = fs.file, fs.name, fs.within, fs.ret, list(fs.spec), fs.tline
+    g.rw = [(r, a) for (r, a) in fs.rw if r == 'txt' and a and a[0] == 'SIG']
+    return g
+
 def _find_body_open(toks):
     """index of the '{' that opens the fn body: first '{' at bracket depth 0 after the params."""
     i = 0
@@ -438,7 +444,7 @@ def _stmt_starts(toks, lo, hi):
         prev = t.text if t.kind == 'punct' else 'x'
     return starts
 
-def assemble_fn(repo, fs, record, canary=None):
+def assemble_fn(repo, fs, record, canary=None, stub=False):
     path = os.path.join(repo, fs.file)
     try:
         src = open(path).read()
@@ -468,6 +474,14 @@ def assemble_fn(repo, fs, record, canary=None):
     toks = _tok_code(text)
     bo = _find_body_open(toks)
     bc = match_close(toks, bo)
+    if stub:
+        # keep the signature, drop the body: the contract is assumed here and proved in the home unit
+        text = text[:toks[bo].start] + '{ unimplemented!() }'
+        toks = _tok_code(text)
+        bo = _find_body_open(toks)
+        bc = match_close(toks, bo)
+        fs = _copy_spec_only(fs)
+        canary = None
     inserts = []   # (offset, text, tag)
     # A1: name the return value
     if fs.ret:
@@ -577,9 +591,59 @@ class Unit:
         self.functions = []
         self.items = []
         self.lemma_canaries = []
+        self.stubs = []
 
 def _parse_quoted(rest):
     return shlex.split(rest)
+
+def _collect_fnspecs(verif, template_path):
+    """parse a template (following includes) and return {(file, name, within): FnSpec} without touching the repo"""
+    res = {}
+    defs = {}
+    def expand(ln):
+        if '$' in ln:
+            for k in sorted(defs, key=len, reverse=True):
+                ln = ln.replace('$' + k, defs[k])
+        return ln
+    def proc(path):
+        lines = open(path).read().split('\n')
+        impl_open = None
+        i = 0
+        while i < len(lines):
+            s = lines[i].strip()
+            if s.startswith('//@ def '):
+                p0 = s[len('//@ def '):].split(None, 1); defs[p0[0]] = p0[1] if len(p0) > 1 else ''; i += 1; continue
+            s = expand(s)
+            if not s.startswith('//@'): i += 1; continue
+            parts = _parse_quoted(s[3:].strip()) if s[3:].strip() else ['#']
+            cmd = parts[0]
+            if cmd == 'include': proc(os.path.join(verif, parts[1])); i += 1; continue
+            if cmd == 'impl': impl_open = (parts[1], parts[2].replace('impl ', '', 1)); i += 1; continue
+            if cmd == 'endimpl': impl_open = None; i += 1; continue
+            if cmd == 'fn':
+                fs = FnSpec(); fs.file, fs.name = parts[1], parts[2]; fs.tline = i + 1
+                rest = parts[3:]
+                if 'in' in rest: fs.within = rest[rest.index('in') + 1].replace('impl ', '', 1)
+                elif impl_open and impl_open[0] == fs.file: fs.within = impl_open[1]
+                i += 1; cur = None
+                while i < len(lines):
+                    s2 = expand(lines[i]).strip()
+                    if s2.startswith('//@'):
+                        d2 = s2[3:].strip(); p2 = _parse_quoted(d2) if d2 else ['#']
+                        if p2[0] == 'endfn': i += 1; break
+                        if p2[0] == 'def':
+                            p0 = d2[len('def'):].strip().split(None, 1); defs[p0[0]] = p0[1] if len(p0) > 1 else ''
+                        elif p2[0] == 'ret': fs.ret = p2[1]; cur = None
+                        elif p2[0] == 'spec': cur = fs.spec
+                        else: cur = []
+                    elif cur is not None:
+                        cur.append(expand(lines[i]))
+                    i += 1
+                res[(fs.file, fs.name, fs.within)] = fs
+                continue
+            i += 1
+    proc(template_path)
+    return res
 
 def build_unit(verif, repo, template_path, canary=False):
     u = Unit()
@@ -679,6 +743,26 @@ def build_unit(verif, repo, template_path, canary=False):
                 i += 1; continue
             if cmd == 'endimpl':
                 emit('}\n', 'TPL', '%s:%d' % (rel, i + 1)); impl_open = None; i += 1; continue
+            if cmd == 'stub':
+                # //@ stub <template> <repo file> <name> [in "<impl header>"] : same signature and contract as in the home unit, body assumed
+                tpl = os.path.join(verif, parts[1])
+                if tpl not in state.setdefault('stubcache', {}):
+                    state['stubcache'][tpl] = _collect_fnspecs(verif, tpl)
+                within = None
+                if 'in' in parts[4:]:
+                    within = parts[parts.index('in') + 1].replace('impl ', '', 1)
+                key = (parts[2], parts[3], within)
+                if key not in state['stubcache'][tpl]:
+                    raise ExtractError('%s:%d stub: no contract for %r in %s' % (rel, i + 1, key, parts[1]))
+                fs0 = state['stubcache'][tpl][key]
+                rec = []
+                pieces = assemble_fn(repo, fs0, rec, None, stub=True)
+                u.stubs.append({'fn': (within + '::' if within else '') + parts[3], 'home': parts[1], 'sha256': rec[0]['sha256']})
+                emit('#[verifier::external_body]\n', 'TPL', '%s:%d' % (rel, i + 1))
+                for txt, tag in pieces:
+                    emit(txt, 'STUB', '%s:%d' % (rel, i + 1))
+                emit('\n', 'TPL', rel)
+                i += 1; continue
             if cmd == 'fn':
                 fs = FnSpec(); fs.tline = i + 1
                 fs.file, fs.name = parts[1], parts[2]
